@@ -480,8 +480,8 @@ def main():
         ub_class = res["cls"] in UB_CLASSES
         os.makedirs(trace_dir + "-g1", exist_ok=True)
         r1, v1, e1 = run_worker(h, seed, v["run"], 1, trace_dir + "-g1", "gate1")
-        if not e1 and v1 is not None and ub_class and v1["result"]["cls"] in UB_CLASSES and v1["result"]["hash"] != res["hash"]:
-            log("memory error of the code under test at %s run %d: event-log hash varies between repetitions (undefined behaviour), class reproduced" % (h, v["run"]))
+        if not e1 and v1 is not None and ub_class and v1["result"]["cls"] in UB_CLASSES and (v1["result"]["hash"] != res["hash"] or v1["result"]["cls"] != res["cls"]):
+            log("memory error of the code under test at %s run %d: %s/%s, repetition %s/%s (undefined behaviour: how it surfaces may vary, a memory error it is every time)" % (h, v["run"], res["cls"], res["hash"], v1["result"]["cls"], v1["result"]["hash"]))
             v["ub_hash_varies"] = True
         elif e1 or v1 is None or v1["result"]["cls"] != res["cls"] or v1["result"]["hash"] != res["hash"]:
             infra_gate = "gate 1 (same seed twice) failed for %s run %d: first %s/%s, second %s" % (
@@ -520,7 +520,7 @@ def main():
         tj["msg_classified"] = res["msg"]
         tj["property"] = pid
         if v.get("ub_hash_varies"):
-            tj["note"] = "memory error of the code under test: the event-log hash varies between repetitions of this run (undefined behaviour), the class is reproduced by every repetition and by the replay"
+            tj["note"] = "memory error of the code under test (undefined behaviour): how it surfaces - sanitizer report, glibc heap check, guard-zone damage, fatal signal, and with which event-log hash - varies between repetitions of this run; every repetition and the replay end in a memory error"
         json.dump(tj, open(final, "w"), indent=1)
         reported.append({"harness": h, "run": v["run"], "cls": res["cls"], "msg": res["msg"], "replay": final, "minimisation": info})
     shutil.rmtree(trace_dir, ignore_errors=True)
